@@ -11,6 +11,12 @@ CHECKS = {
   ref="DESIGN.md §4 C20"),
 }
 
+CHECKS["C15"] = dict(
+  technique="symbolic execution of go/ssa with SMT (z3): one inductive step of every PacketQueue operation from an arbitrary symbolic queue state, compared with a flat byte-string model",
+  text="Bounded symbolic model checking of the real tds/packetQueue.go. Each operation (Bytes, typed reads, String, Read, WriteBytes, typed writes, AddPacket, Position/SetPosition, DiscardUntilCurrentPosition, Reset) is executed once from an arbitrary pre-state satisfying the stated representation invariant (<=3 packets, body lengths 0..600 and contents symbolic, cursor symbolic, packet size 9..600 symbolic and changing) and compared pointwise (skolem index) with the flat FIFO model; bounded histories from the empty queue witness reachability of the invariant. Holds for histories of any length given the invariant.",
+  note="Trusted: symgo executor (slices as layered arrays, sync.Mutex model), z3. Bounds: <=3 packets (2 in quick for Bytes), body <=600 bytes, <=3 newly opened packets per write, histories <=3 (quick) / 4 (thorough) operations over packet sizes 9..24. Outside: AllPacketsConsumed/IsEOM with two or more consecutive empty-body packets (degenerate, unreachable through Channel).",
+  ref="DESIGN.md §4 C15")
+
 NOT_APPLICABLE = {
 }
 
